@@ -26,6 +26,9 @@ pub enum Op {
     /// distinct keys, one shared seqno; `None` = delete
     Batch { items: Vec<(usize, Option<usize>)> },
     WeakDel { k: usize },
+    /// two writers racing a rotation: seqnos s1 < s2 are drawn, `b` is written with s2, the memtable is rotated
+    /// (if `rotate`), then `a` is written with s1 - a newer memtable holds a lower seqno than an older one
+    LatePair { a: usize, b: usize, vlen: usize, rotate: bool },
     Rotate,
     Flush { rotate: bool, wm: u16 },
     Leveled { target: u64, l0: u8, ratio: u8, reps: u8, wm: u16 },
@@ -59,6 +62,7 @@ impl Op {
             Op::Del { .. } => "del",
             Op::Batch { .. } => "batch",
             Op::WeakDel { .. } => "weak_del",
+            Op::LatePair { .. } => "late_pair",
             Op::Rotate => "rotate",
             Op::Flush { .. } => "flush",
             Op::Leveled { .. } => "leveled",
@@ -83,7 +87,7 @@ impl Op {
     }
 
     pub fn is_write(&self) -> bool {
-        matches!(self, Op::Put { .. } | Op::Del { .. } | Op::Batch { .. } | Op::WeakDel { .. })
+        matches!(self, Op::Put { .. } | Op::Del { .. } | Op::Batch { .. } | Op::WeakDel { .. } | Op::LatePair { .. })
     }
 
     pub fn render(&self, uni: &Universe) -> String {
@@ -92,6 +96,7 @@ impl Op {
             Op::Put { k, vlen } => format!("put {} len={}", key(k), vlen),
             Op::Del { k } => format!("del {}", key(k)),
             Op::WeakDel { k } => format!("weak_del {}", key(k)),
+            Op::LatePair { a, b, vlen, rotate } => format!("late_pair later-seqno:{} {}earlier-seqno:{} len={}", key(b), if *rotate { "rotate " } else { "" }, key(a), vlen),
             Op::Batch { items } => format!(
                 "batch [{}]",
                 items
@@ -146,6 +151,7 @@ pub enum Kind {
     DropRange,
     Clear,
     ScanBurst,
+    LatePair,
     _Count,
 }
 
@@ -180,6 +186,7 @@ pub fn profile(name: &str) -> Option<Profile> {
     let base = Profile {
         name: "point",
         weights: w(&[
+            (LatePair, 2),
             (Put, 34), (Del, 12), (Batch, 8), (Rotate, 8), (Flush, 10), (FlushSealed, 3), (Leveled, 10),
             (Major, 4), (MoveDown, 3), (PullDown, 3), (SnapOpen, 3), (SnapRelease, 2), (Reopen, 2),
         ]),
@@ -198,6 +205,7 @@ pub fn profile(name: &str) -> Option<Profile> {
         "snapshot" => Profile {
             name: "snapshot",
             weights: w(&[
+                (LatePair, 2),
                 (Put, 30), (Del, 10), (Batch, 6), (WeakDel, 3), (Rotate, 6), (Flush, 10), (FlushSealed, 2),
                 (Leveled, 10), (Major, 5), (MoveDown, 2), (PullDown, 2), (SnapOpen, 10), (SnapRelease, 6),
                 (Reopen, 1), (Ingest, 3), (DropRange, 3), (Clear, 1), (IterOpen, 3), (IterStep, 6), (IterClose, 2),
@@ -212,6 +220,7 @@ pub fn profile(name: &str) -> Option<Profile> {
         "scan" => Profile {
             name: "scan",
             weights: w(&[
+                (LatePair, 2),
                 (Put, 30), (Del, 12), (Batch, 8), (Rotate, 8), (Flush, 12), (FlushSealed, 2), (Leveled, 8),
                 (Major, 6), (MoveDown, 2), (PullDown, 2), (SnapOpen, 4), (SnapRelease, 2), (ScanBurst, 12),
                 (Ingest, 2), (IterOpen, 3), (IterStep, 8), (IterClose, 2),
@@ -224,6 +233,7 @@ pub fn profile(name: &str) -> Option<Profile> {
         "reopen" => Profile {
             name: "reopen",
             weights: w(&[
+                (LatePair, 2),
                 (Put, 30), (Del, 10), (Batch, 6), (Rotate, 8), (Flush, 12), (FlushSealed, 3), (Leveled, 8),
                 (Major, 4), (MoveDown, 3), (PullDown, 2), (SnapOpen, 2), (SnapRelease, 2), (Reopen, 10),
                 (Ingest, 4), (IngestAbandon, 3), (DropRange, 3), (Clear, 2),
@@ -246,6 +256,7 @@ pub fn profile(name: &str) -> Option<Profile> {
         "ingest" => Profile {
             name: "ingest",
             weights: w(&[
+                (LatePair, 2),
                 (Put, 26), (Del, 8), (Batch, 5), (Rotate, 6), (Flush, 8), (FlushSealed, 2), (Leveled, 8),
                 (Major, 3), (MoveDown, 2), (PullDown, 2), (SnapOpen, 6), (SnapRelease, 4), (Reopen, 4),
                 (Ingest, 14), (IngestAbandon, 2),
@@ -285,6 +296,7 @@ pub fn profile(name: &str) -> Option<Profile> {
         "seqno" => Profile {
             name: "seqno",
             weights: w(&[
+                (LatePair, 5),
                 (Put, 28), (Del, 8), (Batch, 5), (Rotate, 6), (Flush, 12), (FlushSealed, 3), (Leveled, 8),
                 (Major, 5), (MoveDown, 3), (PullDown, 2), (SnapOpen, 2), (SnapRelease, 2), (Reopen, 5),
                 (Ingest, 8), (DropRange, 6), (Clear, 3),
@@ -296,6 +308,7 @@ pub fn profile(name: &str) -> Option<Profile> {
         "files" => Profile {
             name: "files",
             weights: w(&[
+                (LatePair, 1),
                 (Put, 28), (Del, 8), (Batch, 5), (Rotate, 6), (Flush, 14), (FlushSealed, 3), (Leveled, 10),
                 (Major, 7), (MoveDown, 3), (PullDown, 2), (SnapOpen, 8), (SnapRelease, 6), (Reopen, 4),
                 (Ingest, 4), (IngestAbandon, 2), (DropRange, 5), (Clear, 3), (IterOpen, 4), (IterStep, 8), (IterClose, 3),
@@ -309,6 +322,7 @@ pub fn profile(name: &str) -> Option<Profile> {
         "blob" => Profile {
             name: "blob",
             weights: w(&[
+                (LatePair, 2),
                 (Put, 34), (Del, 10), (Batch, 6), (Rotate, 5), (Flush, 12), (FlushSealed, 2), (Leveled, 10),
                 (Major, 8), (MoveDown, 2), (PullDown, 3), (SnapOpen, 5), (SnapRelease, 3), (Reopen, 4),
                 (Ingest, 5), (DropRange, 5), (Clear, 1), (IterOpen, 2), (IterStep, 4), (IterClose, 2),
@@ -323,6 +337,7 @@ pub fn profile(name: &str) -> Option<Profile> {
         "layout" => Profile {
             name: "layout",
             weights: w(&[
+                (LatePair, 2),
                 (Put, 34), (Del, 10), (Batch, 8), (Rotate, 6), (Flush, 14), (FlushSealed, 3), (Leveled, 16),
                 (Major, 6), (MoveDown, 4), (PullDown, 3), (SnapOpen, 2), (SnapRelease, 2), (Reopen, 2),
                 (Ingest, 5), (DropRange, 4),
@@ -335,6 +350,7 @@ pub fn profile(name: &str) -> Option<Profile> {
         "tuning" => Profile {
             name: "tuning",
             weights: w(&[
+                (LatePair, 2),
                 (Put, 34), (Del, 10), (Batch, 8), (Rotate, 6), (Flush, 12), (FlushSealed, 3), (Leveled, 12),
                 (Major, 6), (MoveDown, 3), (PullDown, 3), (SnapOpen, 4), (SnapRelease, 2), (Reopen, 3),
                 (Ingest, 3), (ScanBurst, 4),
@@ -465,6 +481,12 @@ pub fn gen_history(rng: &mut Rng, p: &Profile, uni: &Universe, thresholds: &[u32
                     continue;
                 }
                 Op::WeakDel { k: *rng.pick(&wk) }
+            }
+            x if x == Kind::LatePair as usize => {
+                if gd.len() < 2 {
+                    continue;
+                }
+                Op::LatePair { a: pick_gd(rng), b: pick_gd(rng), vlen: value_len(rng, thresholds), rotate: rng.chance(3, 4) }
             }
             x if x == Kind::Rotate as usize => Op::Rotate,
             x if x == Kind::Flush as usize => Op::Flush { rotate: true, wm: gen_wm(rng) },
